@@ -56,6 +56,8 @@ fn issuer_kids() -> Vec<KeyIdSpec> {
 
 pub fn contexts(all: bool) -> Vec<Ctx> {
     let mut v = vec![stub_self_ctx(Alg::Ed25519, 1)];
+    #[cfg(feature = "crypto")]
+    v.push(csr_pub_ctx(&load_zoo(), &issuer_dns()[2], &KeyIdSpec::Sha512));
     for (i, dn) in issuer_dns().iter().enumerate() {
         for (j, kid) in issuer_kids().iter().enumerate() {
             for src in ["pair", "spki", "custom"] {
@@ -213,6 +215,25 @@ pub fn run(prop: &str, tier: &str, replay: Option<&str>) -> i32 {
             st.dn = c.0.clone();
             st.sans = sans[c.1].1.clone();
             judge.judge(&st, &ctxs[1])
+        });
+        rep.add(sec);
+    }
+    // C2. sizes: every length around the DER length-form boundaries, in four places
+    {
+        let mut lens: Vec<usize> = (0..=300).collect();
+        lens.extend([65534, 65535, 65536, 65537, 70000]);
+        let cases: Vec<(usize, usize)> = lens.iter().flat_map(|l| (0..4usize).map(move |w| (*l, w))).collect();
+        let ctx = stub_self_ctx(Alg::Ed25519, 1);
+        let sec = Section::new("sweep/sizes", "every length 0..=300 and 65534..=65537, 70000 (short-form, 0x81, 0x82 and 0x83 DER lengths) for a CN value, a dNSName, a custom extension's content and a CRL distribution point URI");
+        run::sweep_cases(&sec, &cases, &|c| format!("len={} where={}", c.0, ["CN", "dNSName", "custom extension", "CRL DP URI"][c.1]), &|c| {
+            let mut st = CertState::default();
+            match c.1 {
+                0 => st.dn = DnSpec(vec![(DnTypeSpec::O, StrKind::Utf8, "o".into()), (DnTypeSpec::Cn, StrKind::Utf8, "n".repeat(c.0))]),
+                1 => st.sans = vec![SanSpec::Dns("d".repeat(c.0)), SanSpec::Ip(vec![1, 2, 3, 4])],
+                2 => st.custom_exts = vec![CustomExtSpec { oid: vec![1, 2, 3, 4], critical: false, content: refmodel::der::octet(&vec![0x5a; c.0]), acme: false }],
+                _ => st.crl_dps = vec![vec![format!("http://x/{}", "u".repeat(c.0))]],
+            }
+            judge.judge(&st, &ctx)
         });
         rep.add(sec);
     }
@@ -474,6 +495,7 @@ fn eval_with_issuer(st: &CertState, subject: &Ctx, issuer_ctx: &Ctx) -> CertEval
         SubjectSrc::Custom(c) => params.signed_by(c, &i.cert, &i.key),
         SubjectSrc::Pair(k) => params.signed_by(k, &i.cert, &i.key),
         SubjectSrc::Spki(s) => params.signed_by(s, &i.cert, &i.key),
+        SubjectSrc::CsrPub(s) => params.signed_by(s, &i.cert, &i.key),
     });
     let mut ev = CertEval { der: None, tbs: None, findings: vec![], err: None, panic: None, unconstructible: None, transitions: 15 };
     match r {
